@@ -151,7 +151,22 @@ func c05BlockWait(c *Check, P string, r *GCRoles) {
 		return
 	}
 	_, blockFalse := BoolEdges(Pub, exportedFieldLoad("BlockPublishUntilSubscriberAck"))
-	c.Floor(P+".O2", "test of BlockPublishUntilSubscriberAck", len(blockFalse), 1)
+	var blockFalseW []Edge
+	if !r.WaitInline {
+		_, blockFalseW = BoolEdges(r.Wait, exportedFieldLoad("BlockPublishUntilSubscriberAck"))
+	}
+	c.Floor(P+".O2", "test of BlockPublishUntilSubscriberAck", len(blockFalse)+len(blockFalseW), 1)
+	if !r.WaitInline {
+		// the wait helper returns without having waited only in non-blocking mode
+		cut := NewCut().AddEdges(blockFalseW...)
+		for _, si := range r.waitSelects() {
+			cut.AddInstrs(si.Sel)
+		}
+		re := ReachEntry(r.Wait, cut)
+		for i, ret := range Returns(r.Wait) {
+			c.Report(!re[ret], P+".O2", "WAIT-HELPER-WAITS", r.Wait, ret.Pos(), fmt.Sprintf("wait helper return#%d", i), "the wait helper returns only after its select (or at once in non-blocking mode)")
+		}
+	}
 	for i, f := range fans {
 		k := fmt.Sprintf("fan-out call#%d", i)
 		cut := NewCut().AddInstrs(waits...).AddEdges(blockFalse...)
@@ -168,7 +183,7 @@ func c05BlockWait(c *Check, P string, r *GCRoles) {
 			if !re[ret] {
 				continue
 			}
-			for _, v := range Origins(ret.Results[0]) {
+			for _, v := range RetOrigins(ret, 0) {
 				if IsNilConst(v) {
 					ok = false
 					wit = append(wit, "successful return at "+c.P.Pos(ret.Pos())+" reachable without waiting")
@@ -338,6 +353,7 @@ func c05NoLockAcrossWait(c *Check, P string, r *GCRoles) {
 	}
 	c.RoleKeys = false
 	c05NoOtherLockAcrossWait(c, P+".O4", r)
+	c05DeliverOutsideLocks(c, P+".O4", r)
 }
 
 // c05NoOtherLockAcrossWait: the part of the wait discipline that holds today
@@ -384,6 +400,41 @@ func c05NoOtherLockAcrossWait(c *Check, id string, r *GCRoles) {
 				"held at the wait: "+held.String()+"; held at close(closing): "+need.String()+"; clash: "+strings.Join(clash, ","))
 		}
 	}
+}
+
+// c05DeliverOutsideLocks: a synchronous call of the deliver function lasts until the subscriber settles the
+// message; made while one of the Pub/Sub's own locks is held it makes a subscriber that publishes from its receive
+// loop (or a concurrent Subscribe / Close) wait for a settlement that waits for it.
+func c05DeliverOutsideLocks(c *Check, id string, r *GCRoles) {
+	n := 0
+	for _, f := range c.P.SrcFuncs("pubsub/gochannel") {
+		for _, cl := range CallsIn(f) {
+			if CalleeFn(cl.Common()) != r.Deliver {
+				continue
+			}
+			n++
+			call, isCall := cl.(*ssa.Call)
+			if !isCall {
+				continue
+			}
+			held := LockSet{}
+			for k, m := range r.LA.Held(call) {
+				held[k] = m
+			}
+			for k, m := range r.LA.MayHoldAt(call) {
+				held[k] = m
+			}
+			var bad []string
+			for _, k := range []string{r.idSubs, r.idTopic, r.idPersist, r.idClosedLock} {
+				if _, has := held[k]; has {
+					bad = append(bad, k)
+				}
+			}
+			c.Report(len(bad) == 0, id, "DELIVER-OUTSIDE-PUBSUB-LOCKS", f, call.Pos(), "synchronous deliver call",
+				"a delivery that is waited for in place (until the subscriber settles the message) runs with none of the Pub/Sub's locks held — Publish from the receive loop, Subscribe and Close need them", "held: "+held.String())
+		}
+	}
+	c.Floor(id, "deliver call sites looked at (go-started ones hold nothing)", n, 1)
 }
 
 func contains(xs []string, x string) bool {
